@@ -71,6 +71,20 @@ def run(chk):
     quick = chk.tier == "quick"
     chk.mc("MC_ScriptNum", "MC_ScriptNum_quick.cfg" if quick else "MC_ScriptNum_thorough.cfg", timeout=7000)
     chk.exhaustive = True
+    # symbolic part: the fixed-width formulation (shown by TLC above to be this codec: FixedWidthAgrees) over ALL strings of 0..4 bytes,
+    # all pairs of them and all integers of magnitude below 2^31, decided by Apalache / Z3
+    import tlc
+    res = tlc.run_apalache("AP_ScriptNum4", ["DecodeInjectiveOnMinimal", "DecodeRange", "NonMinimalIsRedundant", "EncodeTotalMinimalAndInverse",
+                                             "MinimalIsEncodeOfValue"], ["InjectiveOnAllStrings"], chk.scratch, deps=("ScriptNum4",))
+    for r in res:
+        chk.mc_runs.append({"module": "AP_ScriptNum4 (Apalache)", "cfg": r["inv"], "verdict": r["outcome"], "expected": r["expected"], "wall_s": r["wall"], "cmd": r["cmd"]})
+        if r["outcome"] == "infra":
+            raise checklib.Infra("Apalache did not decide %s: %s" % (r["inv"], r["tail"]))
+        if r["expected"] == "Error" and r["outcome"] != "Error":
+            raise checklib.Infra("Apalache did not refute the deliberately false statement %s (vacuous model?)" % r["inv"])
+        if r["expected"] == "NoError" and r["outcome"] != "NoError":
+            raise checklib.Infra("Apalache refutes %s (a statement about the specification alone, independent of /repo): %s" % (r["inv"], r["cmd"]))
+    chk.notes.append("Apalache: 5 statements over all byte strings of length 0..4 (and pairs, and all integers below 2^31 in magnitude) hold; the false one is refuted")
     chk.build()
     lines = num_lines(chk) + enc_lines(chk)
     chunk = 4000
